@@ -130,6 +130,9 @@ def shard(job):
     return col.partial()
 
 
+ODD = ["", " ", "http://[a.com/", "http://a.com:99999/", "a.com:x/", "?", "#", "http://", "//", "http://:80", "\x00", "http://u@/a", "mailto:x@y.z", "[::1"]
+
+
 def main():
     a = args("C06")
     col = Collector("C06", a.tier, a.seed)
@@ -154,6 +157,13 @@ def main():
     jobs = [(a.tier, a.seed, list(range(len(B)))[i::n]) for i in range(n)]
     for part in run_sharded(shard, jobs, a.jobs):
         col.merge(part)
+    # fingerprint_url has a result for every string (what cannot be parsed comes back as given): strings that do not parse, or have no host
+    for u in ODD:
+        for kw in ({}, {"strip_suffix": True}, {"platform_aware": True}, {"unsplit": False}):
+            r0 = fp(u, kw)
+            col.count("total")
+            if r0[0] != "ok":
+                col.violation("total", FN, dict(kw, url=u), list(r0), "a result (no exception)")
     col.sample({"url": "http://facebook.com/a/b.html?id=1&Q=Abc", "variant": "http://fr-FR.FACEBOOK.CO.UK:8080/a/b.html?id=1&Q=Abc", "strip_suffix": True})
     col.exhaustive = False
     col.bounds = {"base_urls": len(B), "iso_codes_sampled": 8 if a.tier == "quick" else 62, "ports": "boundaries + seeded random", "suffixes": SUFFIXES}
